@@ -204,6 +204,70 @@ func genVCs(w *World, db *ContractDB, ct *Contract) (res *FnResult) {
 			}
 		}
 	}
+	// refinement: an implementation of a `refined` interface method contract must establish that contract's ensures
+	if fn := ct.Fn; fn != nil && fn.Signature.Recv() != nil && len(fn.Params) > 0 {
+		var keys []string
+		for k := range db.byIface {
+			keys = append(keys, k)
+		}
+		sort.Strings(keys)
+		for _, k := range keys {
+			ic := db.byIface[k]
+			if !ic.Refined || !strings.HasSuffix(ic.Key, ")."+fn.Name()) || len(ic.ParamTypes) == 0 {
+				continue
+			}
+			it, ok := ic.ParamTypes[0].Underlying().(*types.Interface)
+			if !ok || !types.Implements(fn.Params[0].Type(), it) || len(ic.ParamNames) != len(fn.Params) {
+				continue
+			}
+			for _, r := range f.rets {
+				renv := f.specEnv(r.st)
+				renv.pkg = ic.Pkg
+				renv.old = entry
+				renv.lock = f.lockSt
+				renv.results = r.vals
+				renv.resName = ic.ResultNames
+				renv.lets = ic.Lets
+				for i, pn := range ic.ParamNames {
+					v, ok := f.vals[fn.Params[i]]
+					if !ok {
+						continue
+					}
+					if i == 0 {
+						v = T{"(mk_iface " + fmt.Sprint(e.typeID(fn.Params[0].Type())) + " " + v.S + ")", "Iface", ic.ParamTypes[0]}
+					}
+					renv.vars[pn] = v
+				}
+				// the caller of the interface method establishes the interface's preconditions: they are hypotheses here
+				// (parameters of the implementation that have no name are still bound under the interface's names)
+				hyp := "true"
+				eenv := f.specEnv(entry)
+				eenv.pkg = ic.Pkg
+				eenv.old = entry
+				for pn, v := range renv.vars {
+					eenv.vars[pn] = v
+				}
+				for _, rq := range ic.Requires {
+					if ht, err := eenv.evalBool(rq); err == nil {
+						hyp = and(hyp, ht)
+					}
+				}
+				for _, en := range ic.Ensures {
+					tags := en.Tags
+					if len(tags) == 0 {
+						tags = ct.NoPanicTags
+					}
+					t, err := renv.evalBool(en)
+					if err != nil {
+						e.note("interface clause cannot be evaluated on the implementation: " + err.Error())
+						e.addOb("refine-unevaluable", ic.Key+": "+en.Text, tags, en.Src+" @return "+r.pos, r.cond, "false")
+						continue
+					}
+					e.addOb("refine", ic.Key+": "+en.Text, tags, en.Src+" @return "+r.pos, r.cond, implies(hyp, t))
+				}
+			}
+		}
+	}
 	for _, en := range ct.Ensures {
 		if cs := anteReach[en]; len(cs) > 0 {
 			e.items = append(e.items, item{ob: &Obligation{Name: ct.Rel + "#cover:post:" + en.Text, Fn: ct.Rel, Kind: "cover", Tags: en.Tags, Goal: or(cs...), idx: len(e.items)}})
